@@ -1,0 +1,9 @@
+//go:build verif
+
+package verifapi
+
+import "chainguard.dev/apko/internal/verifhook"
+
+// SetPointHook installs the callback that receives the crash-point markers placed at the durable
+// steps of cache population (internal/verifhook). nil removes it.
+func SetPointHook(f func(name string)) { verifhook.Set(f) }
